@@ -7,7 +7,10 @@ import (
 
 // ---------- PRNG: every random choice of a run derives from VERIF_SEED ----------
 
-type RNG struct{ s uint64 }
+type RNG struct {
+	s     uint64
+	vocab []string // pool-local vocabulary of numbers: most draws come from it, so that pools contain close neighbours
+}
 
 func NewRNG(seed uint64, stream string) *RNG {
 	r := &RNG{s: seed*0x9E3779B97F4A7C15 + 0x1234567}
@@ -45,6 +48,9 @@ var numsZero = []string{"00", "01", "007", "010", "0000000000000000000001", "000
 
 // Num: profile 0 = small only, 1 = small+mid, 2 = also big, 3 = also leading zeros
 func (r *RNG) Num(profile int) string {
+	if len(r.vocab) > 0 && r.Intn(100) < 70 {
+		return r.vocab[r.Intn(len(r.vocab))]
+	}
 	k := r.Intn(100)
 	switch {
 	case k < 62 || profile == 0:
@@ -498,6 +504,13 @@ type Pool struct {
 // (or tries are exhausted).  Candidates seen (accepted or not) are returned for reuse.
 func BuildPool(e *Eco, r *RNG, n int, extra []string) (*Pool, []string) {
 	gen := versionGens[e.Name]
+	r.vocab = nil
+	voc := []string{"0", "1", r.Pick(numsSmall), r.Pick(numsSmall), r.Pick(numsMid), r.Pick(numsZero)}
+	if r.Chance(60) {
+		voc = append(voc, r.Pick(numsBig))
+	}
+	r.vocab = voc
+	defer func() { r.vocab = nil }()
 	seen := map[string]bool{}
 	var all []string
 	p := &Pool{Eco: e}
